@@ -113,6 +113,10 @@ func (x *Exec) eval(e ast.Expr, st *State, env *Env) Value {
 			if x.classify(bt).Bits == 8 {
 				ti = TInfo{K: TBV, Bits: 8}
 			}
+			if len(x.autoTrig) > 0 && strings.Contains(i.T, "!") && !strings.ContainsAny(i.T, "() ") {
+				// ghost map read at a bare bound variable: candidate trigger term for that variable
+				x.autoTrig[len(x.autoTrig)-1] = append(x.autoTrig[len(x.autoTrig)-1], "("+app("select", m.T, i.T)+")")
+			}
 			return Scalar{app("select", m.T, i.T), ti}
 		}
 		lv := x.evalLV(e, st, env)
@@ -179,6 +183,12 @@ func (x *Exec) evalIdent(e *ast.Ident, st *State, env *Env) Value {
 // pkgVar handles package-level variables: error sentinels, ghost variables, idx_.
 func (x *Exec) pkgVar(o *types.Var, st *State) Value {
 	ti := x.classify(o.Type())
+	if o.Name() == "at_" {
+		if len(x.atStack) == 0 {
+			x.abort("at_ used outside a ghost range assignment")
+		}
+		return Scalar{x.atStack[len(x.atStack)-1], TInfo{K: TInt, Bits: 64, Signed: true}}
+	}
 	if o.Name() == "idx_" {
 		if len(x.idxStack) == 0 {
 			x.abort("idx_ used outside a range loop annotation")
